@@ -114,7 +114,11 @@ def cout_sec(o):
         s = csec(o["ok"]) if isinstance(o["ok"], dict) else None
         if s is None: return "(Crash 77)"      # the implementation wrote something that is not a detections section
         return f"(Ok ({s[0]}, {s[1]}))"
-    if "err" in o: return f"(SigmaErr {SIGMA_ERR.get(o['err'], 99)})"
+    if "err" in o:
+        # reloading the written dict failed while applying the modifiers, which the model leaves abstract
+        if o.get("stage") == "reload" and o["err"] in ("SigmaValueError", "SigmaTypeError", "SigmaRegularExpressionError"):
+            return "(SigmaErr 50)"
+        return f"(SigmaErr {SIGMA_ERR.get(o['err'], 99)})"
     return f"(Crash {CRASH.get(o['crash'], 1)})"
 
 
